@@ -1246,6 +1246,8 @@ mod c07 {
                 if lf || rf || wrapped || !(form == "lit" || form == "const" || form == "neg") { return super::verdict(true, json!(null), json!(null), v, "const position: literal / const operands only, no parentheses (const initializers are restricted, phase 1)"); }
                 format!("const N: int = 2\nconst X: {} = {}7 {} {}{}\n\ndef main() -> None:\n    pass\n", ak, po, op, rhs, pc)
             }
+            // inside an `elif` branch (condition and body of an elif branch are checked like any other code)
+            "elif" => format!("const N: int = 2\n\ndef f(a: {}, b: {}) -> None:\n    if a > 1000000:\n        pass\n    elif a > 0:\n        y: {} = {}a {} {}{}\n\ndef main() -> None:\n    pass\n", lk, rk, ak, po, op, rhs, pc),
             "arg" => format!("const N: int = 2\n\ndef g(v: {}) -> None:\n    pass\n\ndef f(a: {}, b: {}) -> None:\n    g({}a {} {}{})\n\ndef main() -> None:\n    pass\n", ak, lk, rk, po, op, rhs, pc),
             _ => format!("const N: int = 2\n\ndef f(a: {}, b: {}) -> None:\n    y: {} = {}a {} {}{}\n\ndef main() -> None:\n    pass\n", lk, rk, ak, po, op, rhs, pc),
         };
@@ -1463,9 +1465,9 @@ fn search(oracle: &str, seed: u64, budget: u64, skip: &[String]) -> Value {
             "incan::static_type" => {
                 // exhaustive: 7 operators x 2 x 2 operand kinds x 2 annotations x 7 right-operand forms x 4 binding positions x bare/parenthesised x 3 annotation spellings = 9408 programs (inapplicable ones skipped)
                 let forms = ["var", "const", "lit", "zero", "neg", "paren", "negneg"];
-                let pos = ["let", "return", "arg", "const"];
-                let k = n % 9408;
-                json!({"op": k % 7, "lfloat": (k / 7) % 2 == 0, "rfloat": (k / 14) % 2 == 0, "ann_float": (k / 28) % 2 == 0, "form": forms[((k / 56) % 7) as usize], "position": pos[((k / 392) % 4) as usize], "wrap": (k / 1568) % 2 == 1, "spell": (k / 3136) % 3})
+                let pos = ["let", "return", "arg", "const", "elif"];
+                let k = n % 11760;
+                json!({"op": k % 7, "lfloat": (k / 7) % 2 == 0, "rfloat": (k / 14) % 2 == 0, "ann_float": (k / 28) % 2 == 0, "form": forms[((k / 56) % 7) as usize], "position": pos[((k / 392) % 5) as usize], "wrap": (k / 1960) % 2 == 1, "spell": (k / 3920) % 3})
             }
             "incan::emit_promotion" => {
                 // exhaustive: 4 operators x 4 left forms x 14 right forms x plain/compound x flat/shadowing block x with/without
